@@ -145,15 +145,13 @@ sort_unstable_slice_(roots);
 ===
 .map(|_b: bool| -> (u: ()) { () })
 >>>
-//@hint before <<<let key = Key::new(self.index, node);>>>
+//@hint start <<<>>>
         let ghost v0 = wtxn.view();
         let ghost m0 = tmap(v0, self.index);
         proof {
             if node.mode == NodeMode::Item { lemma_item(m0, node.item); assert(node == itn(node.item)); lemma_removed_none(v0, self.index); }
             else { assert(node == tn(node.item)); lemma_unfold(m0, node.item); lemma_nodes_exist(m0, node); }
         }
-//@hint before <<<if node.mode == NodeMode::Item {>>>
-        proof { lemma_item(tmap(wtxn.view(), self.index), node.item); if node.mode == NodeMode::Item { assert(node == itn(node.item)); lemma_removed_none(wtxn.view(), self.index); } }
 //@hint afterstmt <<<self.delete_tree(wtxn, left)?;>>>
                 let ghost v1 = wtxn.view();
                 proof {
@@ -187,7 +185,7 @@ sort_unstable_slice_(roots);
 
 //@extract src/writer.rs | impl<D: Distance> Writer<D> | delete_extra_trees
 //@attr #[verifier::exec_allows_no_decreases_clause]
-//@hint before <<<let extraneous_tree = roots.len().saturating_sub(target_n_trees as usize);>>>
+//@hint start <<<>>>
         let ghost v0 = wtxn.view(); let ghost r0 = roots@;
         proof { lemma_extra_init(v0, self.index, r0); }
 //@loop 0
